@@ -101,7 +101,8 @@ struct EchoSrv : public asl::WebSocketServer
 			else
 				got.push_back(s);
 		}
-		sawEnd = end;
+		if (end)
+			sawEnd = true; // (sticky: with a reused client object a second, message-less session is served by another handler)
 		if (end)
 		{
 			for (auto& m : *msgs)
@@ -129,6 +130,7 @@ void genAsl(Prng& r, Plan& p, int tier)
 	applyNetKnobs(r, p);
 	p.p["abrupt"] = r.below(5) == 0; // the client closes right behind its last message instead of waiting for the server's
 	p.p["linked"] = r.below(4) == 0; // served through an HttpServer on the same port (HttpServer::link)
+	p.p["reuse"] = r.below(4) == 0;  // the client object is on its second session
 }
 
 void compareSeq(const char* dirName, const std::vector<M>& msgs, int dir, const std::vector<std::string>& got)
@@ -182,8 +184,15 @@ void runAsl(const Plan& p)
 	std::vector<std::string> clientGot;
 	bool connected = false, sawEnd = false;
 	const bool abrupt = p.get("abrupt") != 0;
+	const bool reuse = p.get("reuse") != 0;
 	{
 		asl::WebSocket ws;
+		if (reuse)
+		{
+			// the same WebSocket object has already been through one session (connect, close) before the one that is judged
+			ws.connect("ws://127.0.0.1/chat", PORT);
+			ws.close();
+		}
 		connected = ws.connect("ws://127.0.0.1/chat", PORT);
 		if (connected)
 		{
@@ -234,8 +243,8 @@ void runAsl(const Plan& p)
 		sim::fail("handshake", "asl_client_to_asl_server", "WebSocket::connect to the library's own server failed");
 		return;
 	}
-	if (served != 1)
-		sim::fail("handshake", "serve_count", "server serve(WebSocket&) ran %d times for one connection", served);
+	if (served != 1 + (reuse ? 1 : 0))
+		sim::fail("handshake", "serve_count", "server serve(WebSocket&) ran %d times for %d connections", served, 1 + (reuse ? 1 : 0));
 	compareSeq(abrupt ? "client_to_server;close_behind_last_message" : "client_to_server", msgs, 0, serverGot);
 	if (abrupt)
 	{
